@@ -57,6 +57,12 @@ W['C11/own_path'] = case('own-path-is-type', 4, [
                                         T('User', [a_ident('packed')], [F('f0', ty_id('b'))])]))],
     extras=[[S('observe'), path('a', 'b')]])
 
+dbase = module(defs=[
+    T('D', [], [vftable([], [fn(True, 'f', [], [SELF], None)]), F('b', ty_id('B'), [a_ident('base'), a_int('address', 0)])]),
+    T('B', [], [vftable([], [fn(True, 'f', [], [SELF], None)])])])
+W['C20/base_address'] = one(dbase, 'derived-before-base', prio=[path('m', 'D'), path('m', 'B')])
+W['C09/base_address'] = W['C20/base_address']
+
 for key, c in W.items():
     d, name = key.split('/')
     os.makedirs(os.path.join(VERIF, 'corpus', d), exist_ok=True)
